@@ -159,7 +159,9 @@ let rec int_of_pos = function XH -> 1 | XO p -> 2 * int_of_pos p | XI p -> 2 * i
 let int_of_z = function Z0 -> 0 | Zpos p -> int_of_pos p | Zneg p -> - (int_of_pos p)
 let rec pos_of_int i = if i = 1 then XH else if i mod 2 = 0 then XO (pos_of_int (i / 2)) else XI (pos_of_int (i / 2))
 let z_of_int i = if i = 0 then Z0 else if i > 0 then Zpos (pos_of_int i) else Zneg (pos_of_int (- i))
-let pfpos ((i, l), c) = "(" ^ string_of_int (int_of_z i) ^ " " ^ pn l ^ " " ^ pn c ^ ")"
+let pfpos (i, lc) = match lc with
+  | Some (l, c) -> "(" ^ string_of_int (int_of_z i) ^ " " ^ pn l ^ " " ^ pn c ^ ")"
+  | None -> "(" ^ string_of_int (int_of_z i) ^ " None None)"
 let rec pfv = function
   | FNone -> "none"
   | FBoolV b -> "(bool " ^ pb b ^ ")"
@@ -210,14 +212,10 @@ let runs args = match args with
         let sq = (match spec with
           | Fuel -> "fuel" | Raise -> "raise" | Fails -> "perr"
           | Match (v, q) ->
-            (match finalize t v with
-             | None -> "(crash 1)"
-             | Some fv ->
-               if full && int_of_nat q < List.length t
-               then (match fin_pos t (z_of_int (int_of_nat q)) with
-                     | Some fp -> "(partial " ^ pfv fv ^ " " ^ pfpos fp ^ ")"
-                     | None -> "(crash 1)")
-               else "(return " ^ pfv fv ^ ")")) in
+            let fv = finalize t v in
+            if full && int_of_nat q < List.length t
+            then "(partial " ^ pfv fv ^ " " ^ pfpos (fin_pos t (z_of_int (int_of_nat q))) ^ ")"
+            else "(return " ^ pfv fv ^ ")") in
         x ^ "\t" ^ sp ^ "\t" ^ pm ^ "\t" ^ sq
       | _ -> failwith "case" in
     String.concat "|" (List.map one (match cases with L l -> l | _ -> failwith "cases"))
